@@ -31,25 +31,32 @@ from harness.common import clist
 PROPERTY = "C07"
 LEVEL = "proof"
 
-REQ = ["OV.Graph.Syntax", "OV.Graph.Wf", "OV.Rewrite.Apply", "OV.Rewrite.Order", "OV.Rewrite.State"]
+REQ = ["OV.Graph.Syntax", "OV.Graph.Wf", "OV.Rewrite.Apply", "OV.Rewrite.Order", "OV.Rewrite.State", "OV.Rewrite.Multi"]
 
 
 # ----------------------------------------------------------------------------- running models
 
-def _ort_run(model, feeds):
+def _ort_session(model):
     import onnxruntime as ort
     so = ort.SessionOptions()
     so.graph_optimization_level = ort.GraphOptimizationLevel.ORT_DISABLE_ALL
     so.log_severity_level = 4
     so.intra_op_num_threads = 1
     so.inter_op_num_threads = 1
-    sess = ort.InferenceSession(model.SerializeToString(), so, providers=["CPUExecutionProvider"])
-    return sess.run(None, feeds)
+    return ort.InferenceSession(model.SerializeToString(), so, providers=["CPUExecutionProvider"])
+
+
+def _ort_run(model, feeds):
+    return _ort_session(model).run(None, feeds)
+
+
+def _ref_session(model):
+    import onnx.reference
+    return onnx.reference.ReferenceEvaluator(model)
 
 
 def _ref_run(model, feeds):
-    import onnx.reference
-    return onnx.reference.ReferenceEvaluator(model).run(None, feeds)
+    return _ref_session(model).run(None, feeds)
 
 
 def _runnable(model):
@@ -351,6 +358,8 @@ def decorate_metadata(model):
         for key, value in items:
             p = n.metadata_props.add()
             p.key, p.value = key, value
+        if zlib.crc32(("d" + out).encode()) % 3 == 0:         # doc strings: compared before/after by the tracer's frame oracle
+            n.doc_string = "doc of " + out
 
     def graph(g, values=True):
         for n in g.node:
@@ -400,6 +409,8 @@ class HostResult:
         self.unmodelled_expected = 0
         self.name_case = None
         self.namefix_cases = []
+        self.multi_splices = 0
+        self.sort_cases = []
 
 
 def _exc_chain(e):
@@ -412,14 +423,20 @@ def _exc_chain(e):
     return out
 
 
-def run_real(model, families, trace=True, via_ir=False):
-    """Apply the generated rule set with the real rewriter.  Returns (new model or None, exception, boxes, tracer)."""
+def run_real(model, families, trace=True, via_ir=False, commute=False):
+    """Apply the generated rule set with the real rewriter.  Returns (new model or None, exception, boxes, tracer).
+    commute=True: the rules go through RewriteRuleSet(rules, commute=True), i.e. every rule is replaced by the copies
+    RewriteRule.commute() builds (operands of commutative pattern nodes swapped); every option of the rule (remove_nodes,
+    as_function, name, visitors) must survive the copy."""
     from onnxscript import ir, rewriter
     boxes = G.make_rule_set(families)
     rules = [b.rule for b in boxes]
+    if commute:
+        from onnxscript.rewriter import pattern as _pattern
+        rules = _pattern.RewriteRuleSet(rules, commute=True)
     tracer = Tracer()
     if trace:
-        tracer.install(rules)
+        tracer.install(list(rules.rules) if commute else rules)
     new, exc = None, None
     try:
         m = copy.deepcopy(model)
@@ -481,7 +498,7 @@ def check_cursor(rec):
     return bad
 
 
-def eval_host(ctx, label, host, families, rng, stream="gen", want_ref=True, check_progress=True):
+def eval_host(ctx, label, host, families, rng, stream="gen", want_ref=True, check_progress=True, commute=False):
     """Run every oracle on one host; returns a HostResult (Coq cases are evaluated later in shards)."""
     import onnx
     res = HostResult()
@@ -490,9 +507,9 @@ def eval_host(ctx, label, host, families, rng, stream="gen", want_ref=True, chec
         onnx.checker.check_model(model, full_check=True)
     except Exception as e:  # generator bug, never the implementation's fault
         raise RuntimeError(f"generated host {label} is not a valid model: {e}") from e
-    new, exc, boxes, tracer = run_real(model, families)
+    new, exc, boxes, tracer = run_real(model, families, commute=commute)
     res.sweeps = len(tracer.sweeps)
-    fam_key = "+".join(families)
+    fam_key = "+".join(families) + ("+commute" if commute else "")
     inst = reference_instances(host, families)
     approx = any(G.FAMILIES[f].get("approx") for f in families)          # replacement is a different kernel (contrib op)
     if any(G.FAMILIES[f].get("new_domain") for f in families):
@@ -638,20 +655,32 @@ def eval_host(ctx, label, host, families, rng, stream="gen", want_ref=True, chec
     total_new = sum(r["new_nodes"] for r in tracer.sweeps)
     if extra > total_new:
         bad("extra-nodes", f"{extra} nodes that are neither original nor replacement nodes ({total_new} replacement nodes inserted)")
+    # -- frame, object level: name, doc_string, metadata_props, operator and outputs of every node (and value) no splice matched
+    frame_bad = [b for r in tracer.sweeps for b in r.get("frame_bad", [])]
+    if ctx is not None:
+        MULTI["frame_nodes"] += sum(r.get("frame_checked", 0) for r in tracer.sweeps)
+    if frame_bad:
+        bad("unmatched-node-metadata-changed", "; ".join(frame_bad[:4]))
     # -- equivalence (the property itself)
     feeds = _feeds(model, rng, 3)
     try:
         new_x = _runnable(new)
+        # one session per model for all feeds (the models do not change between feeds)
+        s_old = s_new = r_old = r_new = None
         for f in ([] if known_invalid else feeds):
-            want = _ort_run(model, f)
-            got = _ort_run(new_x, f)
+            if s_old is None:
+                s_old, s_new = _ort_session(model), _ort_session(new_x)
+            want = s_old.run(None, f)
+            got = s_new.run(None, f)
             if not _same(want, got, approx):
                 bad("not-equivalent", "onnxruntime: outputs differ before/after: "
                     f"{[np.asarray(a).ravel()[:4].tolist() for a in want]} vs {[np.asarray(a).ravel()[:4].tolist() for a in got]}")
                 break
             if want_ref:
-                want_r = _ref_run(model, f)
-                got_r = _ref_run(new_x, f)
+                if r_old is None:
+                    r_old, r_new = _ref_session(model), _ref_session(new_x)
+                want_r = r_old.run(None, f)
+                got_r = r_new.run(None, f)
                 if not _same(want_r, got_r):
                     bad("not-equivalent", "onnx.reference: outputs differ before/after")
                     break
@@ -709,7 +738,10 @@ def eval_host(ctx, label, host, families, rng, stream="gen", want_ref=True, chec
         if r["unmodelled"]:
             continue
         res.coq_cases.append((f"{label}/{r['kind']}{k}", r["apps"], r["g0"], r["gfinal"], r["ext"],
-                              dict(events=r["events"], s0=r["s0"], sfinal=r["sfinal"], tops=r.get("tops", [0]))))
+                              dict(events=r["events"], s0=r["s0"], sfinal=r["sfinal"], tops=r.get("tops", [0]),
+                                   multi=bool(r.get("multi")), mevents=r.get("mevents", []), mapps=r.get("mapps", []))))
+        if r.get("multi"):
+            res.multi_splices += len(r.get("mapps", []))
         for d in check_cursor(r):
             res.ties.append(("iteration", f"{label}: {d}"))
     if not known_invalid:
@@ -717,6 +749,15 @@ def eval_host(ctx, label, host, families, rng, stream="gen", want_ref=True, chec
     for f in ([] if known_invalid else new.functions):
         res.wf_terms.append((f"{label}/fn:{f.name}:{f.overload}", graphlit.function_lit(f), graphlit.imports_lit(f.opset_import)))
     res.instances = inst
+    if not tracer.errors:
+        res.sort_cases = [(f"{label}/sort{k}", b, a, ext) for k, (b, a, ext) in enumerate(tracer.sorts)]
+        if ctx is not None:
+            SORT_CASES.extend(res.sort_cases)
+            MULTI["splices"] += res.multi_splices
+            MULTI["const_copies"] += tracer.const_copies
+            MULTI["hosts"] += 1 if res.multi_splices else 0
+    if ctx is not None:
+        MULTI["used_sets"] += tracer.used_sets
     if not known_invalid and not tracer.errors:
         res.namefix_cases = [(f"{label}/{lab}", gtok, gname, pairs, vis) for lab, gtok, gname, pairs, vis in tracer.namefix]
     for err in tracer.errors:
@@ -764,6 +805,9 @@ FLAGS = ["as_is"]          # the repair flags of OV.Rewrite.State matching the s
 NAMEFIX_CASES = []         # (label, token graph, final-name graph, pairs, visible names) after NameFixPass, sampled hosts
 NAME_CASES = []            # (label, (names in use before, bound, names of the values created)) of sampled hosts
 TARGETED_VIOLATED = set()  # traced targeted hosts on which the property oracle reported a (known) violation
+SORT_CASES = []            # (label, token graph before Graph.sort, after it, registered-initializer tokens)
+MULTI = collections.Counter()
+REPLAY_STATS = {}
 STATE_DIFF = {}            # label -> (code, event index, differing component) of the last coq_replay
 
 
@@ -781,6 +825,12 @@ def probe_flags():
 def coq_replay(ctx, cases, shard=40):
     """cases: [(label, apps, g0, gfinal)].  Returns {label: (code, step)} for the failing ones, or None if Coq failed."""
     bodies, labels = [], []
+    # a sweep in which nothing happened (no visit returned a replacement, no splice) and whose container and state literals are
+    # textually the same before and after needs no evaluation: the replay of the empty event list is the identity
+    idle = [c for c in cases if not c[1] and not c[5]["events"] and not c[5].get("mevents") and c[2] == c[3] and c[5]["s0"] == c[5]["sfinal"]]
+    idle_ids = {id(c) for c in idle}
+    cases = [c for c in cases if id(c) not in idle_ids]
+    REPLAY_STATS["idle"], REPLAY_STATS["evaluated"] = len(idle), len(cases)
     for s in range(0, len(cases), shard):
         chunk = cases[s:s + shard]
         lines = []
@@ -792,17 +842,26 @@ def coq_replay(ctx, cases, shard=40):
             lines.append(f"Definition s0_{i} : mstate := {st['s0']}.")
             lines.append(f"Definition sf_{i} : mstate := {st['sfinal']}.")
             lines.append(f"Definition ev_{i} : list event := {clist(st['events'])}.")
-        lst = clist([f"({i}, check_host ap_{i} g0_{i} gf_{i})" for i in range(len(chunk))])
+        # sweeps holding a splice of a pattern with several output nodes: generalised applications (OV.Rewrite.Multi), no
+        # single-root side conditions; order: after the sort (check_sorts)
+        mu = [bool(c[5].get("multi")) for c in chunk]
+        for i, c in enumerate(chunk):
+            if mu[i]:
+                lines[7 * i + 2] = f"Definition ap_{i} : list (path * app * list vname) := []."
+                lines[7 * i + 6] = f"Definition ev_{i} : list mevent := {clist(c[5]['mevents'])}."
+                lines.append(f"Definition ma_{i} : list (path * mapp) := {clist(c[5]['mapps'])}.")
+        lst = clist([(f"({i}, (0, 0, 0))" if mu[i] else f"({i}, check_host ap_{i} g0_{i} gf_{i})") for i in range(len(chunk))])
         lines.append(f"Definition results : list (nat * (nat * nat * nat)) := {lst}.")
         lines.append("Eval vm_compute in (filter (fun r => negb (Nat.eqb (fst (fst (snd r))) 0)) results).")
         lines.append("Eval vm_compute in (fold_right (fun r s => snd (snd r) + s) 0 results).")
         # order part: the container was ordered, every application satisfies order_okb where it is applied (hypotheses of
         # C07_pass_keeps_order) and the observed final graph is ordered
-        lst = clist([f"({i}, check_order ex_{i} ap_{i} g0_{i} && topo_graph ex_{i} gf_{i})" for i in range(len(chunk))])
+        lst = clist([(f"({i}, multi_order_pass ex_{i} ma_{i} g0_{i})" if mu[i] else f"({i}, check_order ex_{i} ap_{i} g0_{i} && topo_graph ex_{i} gf_{i})")
+                     for i in range(len(chunk))])
         lines.append(f"Eval vm_compute in (map fst (filter (fun r => negb (snd r)) {lst})).")
         # the whole container state (imports, initializers, functions, node and value metadata) after the logged visits and
         # splices, as OV.Rewrite.State predicts it, against the state observed when the sweep ended
-        lst = clist([f"({i}, check_state {FLAGS[0]} {clist([str(t) for t in chunk[i][5]['tops']])} ev_{i} g0_{i} s0_{i} gf_{i} sf_{i})" for i in range(len(chunk))])
+        lst = clist([f"({i}, {'check_state_m' if mu[i] else 'check_state'} {FLAGS[0]} {clist([str(t) for t in chunk[i][5]['tops']])} ev_{i} g0_{i} s0_{i} gf_{i} sf_{i})" for i in range(len(chunk))])
         lines.append(f"Eval vm_compute in (filter (fun r => negb (Nat.eqb (fst (fst (snd r))) 0 && Nat.eqb (snd (snd r)) 0)) {lst}).")
         bodies.append("\n".join(lines))
         labels.append([c[0] for c in chunk])
@@ -824,6 +883,48 @@ def coq_replay(ctx, cases, shard=40):
             failing[labs[int(m.group(1))]] = (int(m.group(2)), int(m.group(3)))
         uncovered += int(re.sub(r"%\w+", "", vals[1]).strip())
     return failing, uncovered, unordered
+
+
+def check_sorts(ctx, violated, shard=60):
+    """Every Graph.sort() the rewriter ran on a container (after rules whose pattern has several output nodes) against the
+    order rule of OV.Rewrite.Multi: the observed container = rsort_graph of the container before the sort, and is ordered."""
+    cases = [c for c in SORT_CASES if c[0].split("/")[0] not in violated]
+    bodies, labels = [], []
+    for s in range(0, len(cases), shard):
+        chunk = cases[s:s + shard]
+        lines = []
+        for i, (_label, before, after, ext) in enumerate(chunk):
+            lines.append(f"Definition b_{i} : graph := {before}.")
+            lines.append(f"Definition a_{i} : graph := {after}.")
+        lst = clist([f"({i}, check_sort {clist(c[3], common.cstr)} b_{i} a_{i})" for i, c in enumerate(chunk)])
+        lines.append(f"Definition results : list (nat * nat) := {lst}.")
+        lines.append("Eval vm_compute in (filter (fun r => negb (Nat.eqb (snd r) 0)) results).")
+        lines.append(f"Eval vm_compute in (List.length (filter (fun r => negb (graph_eqb (fst r) (snd r))) {clist([f'(b_{i}, a_{i})' for i in range(len(chunk))])})).")
+        bodies.append("\n".join(lines))
+        labels.append([c[0] for c in chunk])
+    bad, other_order, moved = [], [], 0
+    if bodies:
+        outs = ctx.coq_eval_shards(REQ, bodies, par=8)
+        for (ok, vals, raw), labs in zip(outs, labels):
+            if not ok or len(vals) < 2:
+                ctx.tie_broken("correspondence", "sort:model-evaluation", raw[-1500:])
+                return
+            for m in re.finditer(r"\((\d+),\s*(\d+)\)", re.sub(r"%\w+", "", vals[0])):
+                (other_order if int(m.group(2)) == 1 else bad).append((labs[int(m.group(1))], int(m.group(2))))
+            moved += int(re.sub(r"%\w+", "", vals[1]).strip())
+    WHY = {2: "the container after Graph.sort() is not an ordered rearrangement of the container before it",
+           3: "the order rule finds a cycle in the container the rewriter left behind"}
+    for label, code in bad[:6]:
+        ctx.tie_broken("correspondence", "sort:replay", f"{label}: {WHY.get(code, code)}")
+    ctx.obligation(f"order rule: on {len(cases)} containers sorted by the rewriter after rules whose pattern has several output nodes, the "
+                   "observed container is rsort_graph (OV.Rewrite.Multi) of the container before the sort, or an ordered rearrangement of it, "
+                   "and is topologically ordered (topo_graph)", not bad, "; ".join(f"{k}:{v}" for k, v in bad[:5]))
+    ctx.cover(containers_sorted_by_the_rewriter=len(cases), containers_the_sort_changed=moved,
+              sorted_containers_in_another_valid_order_than_the_one_level_rule=len(other_order),
+              splices_of_patterns_with_several_output_nodes_replayed=MULTI["splices"], hosts_with_such_splices=MULTI["hosts"],
+              unmatched_nodes_compared_by_name_doc_string_metadata=MULTI["frame_nodes"],
+              constants_copied_into_extracted_functions_compared_with_const_value=MULTI["const_copies"],
+              used_name_sets_of_the_fresh_name_authority_compared_with_all_names_of_the_model=MULTI["used_sets"])
 
 
 def coq_wf(ctx, terms, shard=120):
@@ -884,6 +985,12 @@ def report(ctx, label, res, replay):
     return seen
 
 
+def commute_of(h):
+    """Hosts of every 4th round of the rule sets are rewritten with commute=True (option product: every rule family --
+    removing, keeping, as_function, several output nodes, new initializers -- also under commutation)."""
+    return (h // len(RULE_SETS)) % 4 == 3
+
+
 def generated_host(host_seed, h):
     """The h-th host of the generated stream (a function of its own seed, so a replay file can rebuild it)."""
     import random
@@ -903,7 +1010,7 @@ def replay(doc):
     print(json.dumps({k: v for k, v in doc.items() if k != "replay"}, indent=1))
     if r.get("stream") == "generated" and "host_seed" in r:
         rng, rule_set, host = generated_host(r["host_seed"], r["host_index"])
-        res, model = eval_host(None, f"gen{r['host_index']}", host, rule_set, rng)
+        res, model = eval_host(None, f"gen{r['host_index']}", host, rule_set, rng, commute=bool(r.get("commute")))
         import onnx
         print(onnx.printer.to_text(model))
         if res.new is not None:
@@ -923,6 +1030,14 @@ def replay(doc):
         for key, what in res.violations:
             print("REPRODUCED", key, "--", what[:600])
         return 1 if res.violations else 0
+    if r.get("stream") == "repeated":
+        bad, fired, n = repeated_run(r["plan"], r["k"])
+        _rng, original = repeated_host(r["plan"], r["k"])
+        import onnx
+        print(onnx.printer.to_text(original))
+        for kind, what in bad:
+            print("REPRODUCED", f"C07:repeated:{kind}", "--", what[:600])
+        return 1 if bad else 0
     if r.get("stream") == "targeted":
         ctx = common.Ctx(PROPERTY, "quick", doc.get("seed", 0))
         stream_targeted(ctx)
@@ -946,10 +1061,14 @@ def stream_generated(ctx, n_hosts):
         rng, rule_set, host = generated_host(seeds[h], h)
         size = None
         label = f"gen{h}"
-        res, model = eval_host(ctx, label, host, rule_set, rng, want_ref=(h % 2 == 0 if ctx.tier == "thorough" else h % 3 == 0))
+        commute = commute_of(h)
+        res, model = eval_host(ctx, label, host, rule_set, rng, want_ref=(h % 2 == 0 if ctx.tier == "thorough" else h % 3 == 0),
+                               commute=commute)
+        stats["hosts_commute"] += 1 if commute else 0
+        stats["hosts_commute_fired"] += 1 if commute and res.count else 0
         tags = sorted(host.tags)
         nest = tuple(sorted({t.split(":")[1] for t in tags if t.startswith("nest:")}))
-        ctx.case(("gen", "+".join(rule_set), nest, min(res.count or 0, 3),
+        ctx.case(("gen", "+".join(rule_set), commute, nest, min(res.count or 0, 3),
                   "extra-consumer" in " ".join(tags), "planted-value-is-graph-output" in tags))
         stats["hosts"] += 1
         stats["fired_hosts"] += 1 if res.count else 0
@@ -960,7 +1079,7 @@ def stream_generated(ctx, n_hosts):
         fired_hist[min(res.count or 0, 5)] += 1
         for t in tags:
             stats["tag:" + t.split(":d")[0]] += 1
-        replay = {"stream": "generated", "seed": ctx.seed, "host_index": h, "host_seed": seeds[h], "rule_set": rule_set,
+        replay = {"stream": "generated", "seed": ctx.seed, "host_index": h, "host_seed": seeds[h], "rule_set": rule_set, "commute": commute,
                   "model": model.SerializeToString().hex() if len(model.SerializeToString()) < 20000 else "large"}
         if report(ctx, label, res, replay):
             host_violated.add(label)
@@ -1445,6 +1564,106 @@ def stream_history(ctx):
             NAME_CASES.append((f"history:{'+'.join(fams)}", (sorted(used0), 2 * len(created) + 2, created)))
 
 
+REPEAT_PLANS = [
+    # (families planted in the host, rule set of pass 1, of pass 2, (of pass 3)); every replacement has >= 2 nodes, i.e. creates
+    # values that the rewriter has to name
+    (["dtrans", "mul1_node"], [["dtrans"], ["mul1_node"]]),
+    (["chain2", "mul1_node"], [["chain2"], ["mul1_node"], ["chain2"]]),
+    (["chain3", "dtrans"], [["chain3"], ["dtrans"]]),
+    (["mul1_node", "bin_nested"], [["mul1_node"], ["bin_nested"], ["mul1_node"]]),
+    (["dag_a", "dtrans"], [["dag_a"], ["dtrans"], ["dag_a"]]),
+    (["negneg", "mul1_node"], [["negneg"], ["mul1_node"]]),
+    (["chain2"], [["chain2"], ["chain2"], ["chain2"]]),
+]
+
+
+def repeated_host(plan, k):
+    import random
+    planted, _passes = REPEAT_PLANS[plan]
+    rng = random.Random(7000 + 100 * plan + k)
+    gen = G.HostGen(rng, planted, size=rng.choice([8, 12]), nest=0.6)
+    host = gen.host(n_inputs=2, depth=rng.choice([1, 2]))
+    live_host(host, gen)
+    return rng, decorate_metadata(G.to_model(host))
+
+
+def repeated_run(plan, k, wf=None, label=None):
+    """Rewrite ONE model several times (separate rewrite() calls, fresh rule objects, so the fresh-name counter restarts):
+    after every pass the model must be valid, keep its signature, define no value name twice (nested graphs included) and
+    compute what the original computes.  Returns [(key suffix, what)], passes that fired."""
+    import onnx
+    from onnxscript import rewriter
+    _planted, passes = REPEAT_PLANS[plan]
+    rng, original = repeated_host(plan, k)
+    feeds = _feeds(original, rng, 2)
+    shadow0 = shadowing_names(original)
+    want, s0 = None, None
+    bad, fired = [], 0
+    cur = original
+    for j, fams in enumerate(passes, start=1):
+        boxes = G.make_rule_set(fams)
+        try:
+            new = rewriter.rewrite(copy.deepcopy(cur), [b.rule for b in boxes])
+        except Exception as e:
+            bad.append((f"raises:{type(e).__name__}", f"pass {j} ({'+'.join(fams)}): rewrite() raised {type(e).__name__}: {str(e)[:200]}"))
+            break
+        fired += 1 if any(b.fires for b in boxes) else 0
+        tag = f"pass {j} ({'+'.join(fams)})"
+        clash = sorted(shadowing_names(new) - shadow0)
+        if clash:
+            bad.append(("value-name-defined-twice", f"{tag}: the names {clash[:3]} are defined in a nested graph and in a graph around it "
+                        "(a value created by this pass took a name that an earlier pass had given to a value of an If/Loop body); "
+                        "onnxruntime: the graph must be in SSA form"))
+            break
+        try:
+            onnx.checker.check_model(new, full_check=True)
+        except Exception as e:
+            bad.append(("invalid-model", f"{tag}: onnx.checker rejects the model: {str(e)[:200]}"))
+            break
+        if [i.name for i in new.graph.input] != [i.name for i in original.graph.input] or \
+           [o.name for o in new.graph.output] != [o.name for o in original.graph.output]:
+            bad.append(("signature-names", f"{tag}: graph inputs/outputs renamed"))
+            break
+        try:
+            if s0 is None:
+                s0 = _ort_session(original)
+                want = [s0.run(None, f) for f in feeds]
+            s1 = _ort_session(_runnable(new))
+            for f, w in zip(feeds, want):
+                if not _same(w, s1.run(None, f)):
+                    bad.append(("not-equivalent", f"{tag}: onnxruntime outputs differ from the original model"))
+                    break
+        except Exception as e:
+            bad.append(("result-does-not-run", f"{tag}: {type(e).__name__}: {str(e)[:200]}"))
+            break
+        if bad:
+            break
+        if wf is not None:
+            wf.append((f"{label}/pass{j}/main", graphlit.graph_lit(sibling_normalised(new.graph)), graphlit.imports_lit(new.opset_import)))
+        cur = new
+    return bad, fired, len(passes)
+
+
+def stream_repeated(ctx, wf, meta):
+    """History of ONE model: two and three rewrite passes in a row, hosts with matches inside If/Loop bodies and in the graphs
+    around them (also after the control-flow node)."""
+    per_plan = 4 if ctx.tier == "quick" else 14
+    stats = collections.Counter()
+    for plan, (planted, passes) in enumerate(REPEAT_PLANS):
+        for k in range(per_plan):
+            label = f"rep{plan}x{k}"
+            replay = {"stream": "repeated", "plan": plan, "k": k, "planted": planted, "passes": passes}
+            meta[label] = (planted, replay)
+            bad, fired, n = repeated_run(plan, k, wf, label)
+            ctx.case(("repeated", "+".join(planted), n, fired))
+            stats["hosts"] += 1
+            stats["passes"] += n
+            stats["passes_fired"] += fired
+            for kind, what in bad:
+                ctx.violation(f"C07:repeated:{kind}:{'+'.join(planted)}", f"{label}: {what}", replay)
+    ctx.cover(models_rewritten_several_times=stats["hosts"], rewrite_passes_on_them=stats["passes"], of_which_fired=stats["passes_fired"])
+
+
 def check_namefix(ctx):
     """NameFixPass as run at the end of apply_to_model: the container over the final names is the relabelling namefix (rn_of pairs)
     of the container over tokens, and the relabelling satisfies the executable hypotheses namefix_okb of C07_namefix_sound /
@@ -1599,7 +1818,8 @@ def stream_ir_path(ctx, n):
         elif ea is None and a.SerializeToString(deterministic=True) != b.SerializeToString(deterministic=True):
             diffs += 1
             feeds = _feeds(model, rng, 2)
-            same = all(_same(_ort_run(a, f), _ort_run(b, f)) for f in feeds)
+            sa, sb = _ort_session(a), _ort_session(b)
+            same = all(_same(sa.run(None, f), sb.run(None, f)) for f in feeds)
             if not same:
                 ctx.violation(f"C07:proto-vs-ir:not-equivalent:{'+'.join(rule_set)}", "rewrite(proto) and rewrite(ir) compute different functions",
                               {"stream": "ir-path", "host_index": h, "rule_set": rule_set})
@@ -1614,26 +1834,40 @@ def run(ctx):
     ctx.assume("kernel semantics abstract in every theorem (any deterministic `sem`); the replacement's equivalence to the pattern "
                "(seg_equiv) is a hypothesis, discharged by construction for the generated rules and measured on onnxruntime "
                "(ORT_DISABLE_ALL) / onnx.reference for every host")
-    ctx.assume("model covers patterns whose outputs all belong to the root node; patterns with several output nodes and progress are "
-               "observed on the real code only (checker, execution, structure diff); initializer/opset/function registration, as_function "
+    ctx.assume("semantic theorems cover patterns whose outputs all belong to the root node; for patterns with several output nodes the "
+               "splice, the container state and the order after the sort are modelled (Rewrite/Multi.v) and replayed, their equivalence and "
+               "progress are observed on the real code only (checker, execution, structure diff); initializer/opset/function registration, as_function "
                "extraction and metadata merging are modelled in Rewrite/State.v and replayed per sweep; NameFixPass is not modelled; the "
                "`repaired` flags of State.v model the proposed patches, which are not applied to the source")
     ctx.assume("a call of a model-local function is an opaque kernel in Graph/Sem.v; a rewrite inside a function body is covered as a "
                "rewrite of that body's graph")
     ctx.trust("harness/c07_trace.py: wrappers around RewriteRuleSet._apply_to_graph_or_function, RewriteRule.try_rewrite and "
-              "onnx_ir.convenience.replace_nodes_and_values (observation only), token assignment, IR -> Coq literal printers")
+              "onnx_ir.convenience.replace_nodes_and_values, onnx_ir Graph.sort and NameFixPass.call (observation only), token assignment, IR -> Coq literal printers")
     ctx.check_props()
     displaced, owner = probe_flags()
     ctx.cover(source_has_initializer_clash_repair=displaced, source_has_function_subgraph_imports_repair=owner)
 
     NAME_CASES.clear()
     NAMEFIX_CASES.clear()
+    SORT_CASES.clear()
+    MULTI.clear()
     quick = ctx.tier == "quick"
     # thorough: 40 hosts per rule set (was 60); onnx.reference on every second host; 60 proto-vs-IR hosts (was 120): the streams
     # are samples of the same generators, the bounded-exhaustive small-host stream and the container plan stay complete
+    import time
+    T = {}
+    t0 = time.time()
+
+    def lap(name):
+        nonlocal t0
+        T[name] = round(time.time() - t0, 1)
+        t0 = time.time()
+    lap("props")
     n_hosts = len(RULE_SETS) * (8 if quick else 40)
     cases, wf, meta, stats, hist, violated = stream_generated(ctx, n_hosts)
+    lap("generated")
     c2, w2, st2 = stream_small(ctx, 4, 150 if quick else None)
+    lap("small")
     cases += c2
     wf += w2
     TARGETED_VIOLATED.clear()
@@ -1641,10 +1875,15 @@ def run(ctx):
     violated |= TARGETED_VIOLATED
     stream_returned(ctx)
     stream_history(ctx)
+    stream_repeated(ctx, wf, meta)
+    lap("targeted")
     st3 = stream_containers(ctx, cases, wf, meta)
+    lap("containers")
     ir_diffs = stream_ir_path(ctx, 20 if quick else 60)
+    lap("ir_path")
 
     failing, uncovered, unordered = coq_replay(ctx, cases)
+    lap("coq_replay")
     if failing is not None:
         CODE = {1: "path leads nowhere", 2: "side conditions of the soundness theorem fail for a removing application (side_okb)", 3: "ill-formed application",
                 4: "replay through the model differs from the graph the implementation produced"}
@@ -1682,9 +1921,13 @@ def run(ctx):
                        "functions table (extracted body = matched nodes in graph order behind the copied constants, least unused overload, "
                        "imports filtered from the parent), node and value metadata_props observed when the sweep ended", not sdiff,
                        "; ".join(f"{k}:{v}" for k, v in list(sdiff.items())[:5]))
+    check_sorts(ctx, violated)
     check_fresh_names(ctx)
     check_namefix(ctx)
+    lap("coq_sorts_names_namefix")
     bad_wf, bad_imp = coq_wf(ctx, wf)
+    lap("coq_wf")
+    ctx.cover(stage_seconds=T)
     if bad_wf is not None:
         for label in bad_wf:
             ctx.violation(f"C07:result-not-well-formed:{'+'.join(meta.get(label.split('/')[0], (['small'],))[0])}",
@@ -1702,11 +1945,13 @@ def run(ctx):
     if fired_ratio < 0.4:
         ctx.tie_broken("harness", "generator-degenerate", f"only {fired_ratio:.2f} of the hosts fired")
     ctx.cover(hosts=stats["hosts"], hosts_fired=stats["fired_hosts"], splices_replayed=stats["splices"], sweeps_replayed=len(cases),
-              hosts_with_nesting=stats["nested_hosts"], fire_count_histogram={str(k): v for k, v in sorted(hist.items())},
+              hosts_with_nesting=stats["nested_hosts"], hosts_rewritten_with_commute=stats["hosts_commute"],
+              hosts_rewritten_with_commute_fired=stats["hosts_commute_fired"], fire_count_histogram={str(k): v for k, v in sorted(hist.items())},
               host_tags={k[4:]: v for k, v in sorted(stats.items()) if k.startswith("tag:")},
               small_hosts=st2["hosts"], small_hosts_fired=st2["fired_hosts"], rule_sets=len(RULE_SETS),
               container_hosts=st3["hosts"], container_hosts_fired=st3["fired"],
               container_hosts_by_container={k[6:]: v for k, v in sorted(st3.items()) if k.startswith("where:")},
+              sweeps_without_any_event_compared_textually=REPLAY_STATS.get("idle"), sweeps_evaluated_in_coq=REPLAY_STATS.get("evaluated"),
               wf_checked=len(wf), splices_of_patterns_with_several_output_nodes_outside_model=stats["splices_outside_model"], keeping_applications_outside_proved_side_conditions=uncovered, proto_vs_ir_serialisation_diffs=ir_diffs,
               rule="generated rules (pattern tree, transform in reemit/swap/double-transpose/x*1/x+0/Split/keep/as_function) x random hosts "
                    "(planted + chance instances, interleaved, overlapping, extra consumers, graph outputs, If/Loop/functions) + all small hosts")
